@@ -1,5 +1,6 @@
 import Casket.Proofs.Parser
 import Casket.Proofs.ParserTerm
+import Casket.Proofs.ParserTotal
 import Casket.Proofs.ParserRT
 import Casket.Proofs.ParserCycle
 import Casket.Proofs.Env
@@ -76,6 +77,31 @@ theorem C10_parse_terminates_no_import_partial (cfg : Cfg) (fuel : Nat) (fn : St
   have := parse_fin cfg fuel fn input hfn hp hf
   rw [h] at this
   exact this
+
+/-- Termination WITH imports.  PARTIAL — what is missing: configurations that DEFINE snippets (`Hyp` asks that no
+source token expands to something starting with `(`), and environment values that loop (F19).  For everything
+else — any bytes in the input and in any finite set of files, imports of files and globs nested to any depth,
+import cycles of every shape — the repaired parser returns: the fuel
+`tokens(input) · (L + 2)^N` (N = number of files, L = total number of tokens in them) is never used up.
+Proof: the cycle check keeps the sources being expanded distinct (`FOK`), so at most N are nested; a token at import
+depth d weighs `(L+2)^(N-d)`; reading a token lowers the total weight, and an import replaces two tokens of depth
+d by at most L tokens of depth d+1, which weigh less than one of them (`import_measure`). -/
+theorem C10_parse_total_files_partial (cfg : Cfg) (fuel : Nat) (fn : String) (input : Bytes)
+    (hyp : Hyp cfg (lex input))
+    (hf : (lex input).length * (Lmax cfg + 2) ^ cfg.fs.files.length < fuel) :
+    (∃ bs, parse cfg fuel fn input = .ok bs) ∨ (∃ c f l, parse cfg fuel fn input = .err c f l) := by
+  have h := parse_tm cfg fuel fn input hyp hf
+  cases hr : parse cfg fuel fn input with
+  | ok bs => exact Or.inl ⟨bs, rfl⟩
+  | err c f l => exact Or.inr ⟨c, f, l, rfl⟩
+  | panic m => exact absurd hr (C10_parse_no_panic cfg fuel fn input m)
+  | timeout => rw [hr] at h; exact h.elim
+
+/-- non-vacuity: the hypothesis holds for a directory whose file imports ITSELF (finding F8's input); the bound is
+2·(2+2)^1 + 1 = 9 steps, and the answer is the cycle error -/
+example : Hyp { fs := selfFS, envFuel := 3 } (lex sImportF0) ∧
+    (lex sImportF0).length * (Lmax { fs := selfFS, envFuel := 3 } + 2) ^ selfFS.files.length < 9 :=
+  ⟨hyp_of_noRef _ _ rfl (by decide) (by decide), by decide⟩
 
 /-- the hypothesis is decidable for texts without `{%` / `{$`, and it holds for ordinary configurations:
 `host {⏎ dir "a b" {⏎  x⏎ }⏎}` (a test of non-vacuity) -/
